@@ -3,8 +3,14 @@ namespace Nb.C04.Gen
 def n1QuatThr : Rat := (3 : Rat) / 8388608
 def n2QuatThr : Rat := (-3 : Rat) / 4503599627370496
 def floatEps : Rat := (1 : Rat) / 4503599627370496
+/-- tolerances of the `np.allclose` call in `SpatialImage.update_header` (keywords of the call, else NumPy defaults) -/
 def rtol : Rat := (5902958103587057 : Rat) / 590295810358705651712
 def atol : Rat := (3022314549036573 : Rat) / 302231454903657293676544
+/-- `Spm99AnalyzeImage.from_file_map` / `to_file_map`: `to_111[:3, 3]`, `from_111[:3, 3]`, `np.diag` flips -/
+def spmTo111 : Int := 1
+def spmFrom111 : Int := -1
+def spmFlipRead : List Int := [-1, 1, 1, 1]
+def spmFlipWrite : List Int := [-1, 1, 1, 1]
 /-- `nibabel.nifti1.xform_codes`: every valid code with its string aliases -/
 def xformTable : List (Nat × List String) := [(0, ["NIFTI_XFORM_UNKNOWN", "unknown"]), (1, ["NIFTI_XFORM_SCANNER_ANAT", "scanner"]), (2, ["NIFTI_XFORM_ALIGNED_ANAT", "aligned"]), (3, ["NIFTI_XFORM_TALAIRACH", "talairach"]), (4, ["NIFTI_XFORM_MNI_152", "mni"]), (5, ["NIFTI_XFORM_TEMPLATE_OTHER", "template"])]
 def xformCodes : List Nat := xformTable.map (·.1)
